@@ -146,8 +146,11 @@ func Begin(s *Scenario) (*Exec, error) {
 		},
 		TimeUnit: e.unit,
 		Yield: func(point, name string) {
-			if point == "runProcess.afterWait" {
+			switch point {
+			case "runProcess.afterWait":
 				w.Record(world.Event{Kind: world.EvMark, Proc: name, Text: "released"})
+			case "shutdown.afterCollect":
+				w.Record(world.Event{Kind: world.EvMark, Text: "shutdown-begin"})
 			}
 			w.Yield(point, name)
 		},
